@@ -13,6 +13,7 @@ func init() { register("C18", checkC18) }
 
 // One finished printf call of the model (MC_Printf.Vec).
 type c18Vec struct {
+	Fam     int                 `json:"fam"`
 	Fmt     []string            `json:"fmt"`
 	Args    []string            `json:"args"`
 	Cls     string              `json:"cls"`
@@ -179,6 +180,8 @@ func checkC18(c *Ctx) {
 	polReported := false
 	var nOK, nErr, nSurplusErr, nMulti, nSkip, nVec int
 	whyCount := map[string]int{}
+	perFam := map[int]int{}
+	lateErr := map[string]int{} // family 4: errors raised after >= 4096 bytes were rendered
 	nSample := 0
 
 	type batch struct {
@@ -199,6 +202,7 @@ func checkC18(c *Ctx) {
 			nSkip++
 			return
 		}
+		perFam[v.Fam]++
 		hasDir := false
 		for _, b := range v.Fmt {
 			hasDir = hasDir || b == "%"
@@ -215,6 +219,9 @@ func checkC18(c *Ctx) {
 			}
 			nErr++
 			whyCount[v.Why]++
+			if v.Fam == 4 && len(v.Args) > 0 {
+				lateErr[v.Why]++
+			}
 			c.Case(key, hasDir)
 			return
 		}
@@ -345,15 +352,15 @@ func checkC18(c *Ctx) {
 	onVec := func(raw []byte) {
 		var v c18Vec
 		VecDecode(raw, &v)
-		if len(v.Outs) != 8 || len(v.Args) > 2 {
+		if len(v.Outs) != 8 || v.Fam <= 2 && len(v.Args) > 2 {
 			infra("C18: malformed vector: %.200s", raw)
 		}
 		nVec++
 		// the model's args are the arguments the scanner looked at; the call may carry more
 		// (never examined), except where the model says the list was exhausted
 		free := 2 - len(v.Args)
-		if v.Why == "missing" {
-			free = 0
+		if v.Why == "missing" || v.Fam > 2 {
+			free = 0 // families 3 and 4: exactly the arguments of the model
 		}
 		for _, comp := range completions[free] {
 			w := v
@@ -369,13 +376,21 @@ func checkC18(c *Ctx) {
 	}
 	props := []string{"INVARIANT Laws", "INVARIANT Vec", "PROPERTY BufMonotone", "PROPERTY WriteOnlyAtEmit", "PROPERTY FailAbsorbs",
 		"PROPERTY ArgsInOrder", "PROPERTY EveryByteConsumed", "CHECK_DEADLOCK FALSE"}
+	big := "FALSE"
+	if c.Thorough() {
+		big = "TRUE"
+	}
 	cfg := func(maxLen, maxArgs, family int) string {
 		return cfgText(append([]string{"INIT Init", "NEXT Next", "CONSTANTS", fmt.Sprintf("MaxLen = %d", maxLen),
-			fmt.Sprintf("MaxArgs = %d", maxArgs), fmt.Sprintf("Family = %d", family)}, props...)...)
+			fmt.Sprintf("MaxArgs = %d", maxArgs), fmt.Sprintf("Family = %d", family), "Big = " + big}, props...)...)
 	}
 	// family 2 first (small): single directives with widths around the limits
 	f2args := 2
 	c.TLC(TLCOpt{Module: "MC_Printf", Cfg: cfg(0, f2args, 2), OnVec: onVec, Workers: 8, Heap: "6g"})
+	// family 4: large fields, then the end of the format or an error of every kind
+	c.TLC(TLCOpt{Module: "MC_Printf", Cfg: cfg(0, 4, 4), OnVec: onVec, Workers: 8, Heap: "6g"})
+	// family 3: 2 and 3 directives with widths, literals between them
+	c.TLC(TLCOpt{Module: "MC_Printf", Cfg: cfg(0, 3, 3), OnVec: onVec, Workers: 8, Heap: "6g"})
 	flush()
 	st.Wait()
 	n2 := nOK + nErr + nSurplusErr
@@ -393,14 +408,18 @@ func checkC18(c *Ctx) {
 	c.Set("exhaustive", true)
 	c.Set("rule", "TLC explores the printf scanner (BFS) over every format of <= MaxLen bytes over {% s f v d - 0 5 x} x every argument list of <= 2 of "+
 		"{2-byte string, 6-byte string, 1-byte number, 6-byte number, null, [1]}, plus single directives with widths {1,2,9,10,11,4096,65536,65537,2^32+1,2^64+1} "+
-		"of either sign, with/without leading zero, with/without surrounding literals; one real run per finished call; non-trivial = the format contains a '%'; distinct by program text")
-	c.Set("checker_cmd", "tlc MC_Printf (Family 2, then Family 1); replay through lang.EvalProgram in worker subprocesses (batches of 64 runs)")
+		"of either sign, with/without leading zero, with/without surrounding literals (family 2); formats of 2 and 3 directives, each with a width from {none, 3, 03, -3, -03, 12} and a letter from {s, f, v, %}, "+
+		"literals between them, arguments of the wanted kind short and long (3 directives: short only in quick) (family 3); one to three large fields (2000..65536 bytes, together >= 4096) followed by the end of the format or by each error kind "+
+		"(missing argument, wrong kind, unknown directive, dangling %, dangling width, width beyond the maximum) (family 4); one real run per finished call; non-trivial = the format contains a '%'; distinct by program text")
+	c.Set("checker_cmd", "tlc MC_Printf (Families 2, 4, 3, then Family 1); replay through lang.EvalProgram in worker subprocesses (batches of 64 runs)")
 	c.Set("bounds", map[string]int{"MaxLen": maxLen, "MaxArgs": 2, "family2_MaxArgs": f2args})
 	c.Set("model_behaviours", nVec)
 	c.Set("calls_ok", nOK)
 	c.Set("calls_runtime_error", nErr)
 	c.Set("calls_error_by_cause", whyCount)
-	c.Set("calls_family2", n2)
+	c.Set("calls_families_2_3_4", n2)
+	c.Set("calls_per_family", perFam)
+	c.Set("family4_errors_after_large_output_by_cause", lateErr)
 	c.Set("surplus_arguments_refused", nSurplusErr)
 	c.Set("calls_where_readings_differ", nMulti)
 	c.Set("inconclusive_budget_or_timeout", nSkip)
